@@ -10,4 +10,6 @@ open StarsimModel.C09
 #print axioms C09_refinalize_refused
 #print axioms C09_scaled_at_most_once
 #print axioms C09_twins
+#print axioms C09_restores_transparent
+#print axioms C09_restores_commute
 #print axioms C09_uninterrupted
